@@ -36,6 +36,14 @@ def rule_bytes(repo, rule):
             owner = [p for p in parents(c) if isinstance(p, (ast.FunctionDef, ast.Lambda))]
             if owner and owner[0] is not fi.node:
                 continue
+            from ..known_names import KNOWN
+            if fi.name not in KNOWN and fi.parent is None:
+                # a helper unknown to the rule tables: its body has been inlined at its call sites (sa/flatten.py);
+                # it is judged there, unless some call site could not be inlined
+                remaining = [x for g in m.functions.values() if g is not fi for x in ast.walk(g.node)
+                             if isinstance(x, ast.Call) and norm(x.func).split(".")[-1] == fi.name]
+                if not remaining:
+                    continue
             n_inst += 1
             where = fi.loc(c)
             e = c.args[0]
@@ -66,8 +74,8 @@ def rule_bytes(repo, rule):
             outer = [f for f in fors if f not in jloop]
             if outer:
                 it = norm(outer[0].iter)
-                if not re.match(r"^reversed\(range\(len\(\w+\)\)\)$", it):
-                    problems.append("element loop `%s` is not reversed(range(len(...)))" % it)
+                if not (re.match(r"^reversed\(range\(len\(\w+\)\)\)$", it) or re.match(r"^reversed\(\w+\)$", it)):
+                    problems.append("element loop `%s` is not reversed(...) (back-to-front builder)" % it)
             term = "PrependByte(%s) with %s = %s, loops %s" % (norm(e), vtxt, vdef, [norm(f.iter) for f in fors])
             if problems:
                 rule.violation(where, fi.fq, term, "; ".join(problems), "%s/bytes/%s" % (fi.qual, vtxt))
